@@ -21,6 +21,7 @@ from sim.props.base import Env, RunBase
 
 ID = 'C11'
 CHUNK = 200
+COLD_EVERY = 16      # restart fault: every 16th run executes in a process that has executed nothing since import
 setup = base.setup
 clean_start = base.clean_start
 chunk_end_clean = base.chunk_end_clean
